@@ -925,8 +925,8 @@ func (s *session) establishChanFull(delay int) bool {
 	if !ok {
 		return false
 	}
-	// A second, short stream ends in the middle of the queue: its END_STREAM frame has the frames of
-	// the long stream queued up behind it. It is not used for anything else afterwards.
+	// A second, short stream ends inside the queue: its END_STREAM frame has the frames of the long
+	// stream queued up behind it. It is not used for anything else afterwards.
 	short, ok := s.openStream()
 	if !ok {
 		return false
@@ -935,10 +935,12 @@ func (s *session) establishChanFull(delay int) bool {
 	var fill [2]bool
 	if s.rng.Intn(4) == 0 {
 		fill[0], fill[1] = true, true
-	} else if x := s.rng.Intn(2); must >= 0 {
+	} else if x := s.rng.Intn(4); must >= 0 {
 		fill[must] = true
+	} else if x == 0 {
+		fill[delay] = true
 	} else {
-		fill[x] = true
+		fill[1-delay] = true // mostly the direction that is not held at the hook: its reader can be parked on a push
 	}
 	var over [2]int
 	for dir := 0; dir < 2; dir++ {
@@ -963,9 +965,12 @@ func (s *session) establishChanFull(delay int) bool {
 		total += 16 + over[dir]
 		// position of the short stream's last frame: while the reader will still be parked on a push
 		// when the writer gets to it (< over), else anywhere in the first 16
+		// Position of the short stream's last frame. With a reader parked on a push, mostly position 0:
+		// the frame the writer holds while the channel fills up behind it, so that the reader is
+		// certainly still parked when the writer has written it; else anywhere in the first 16.
 		endAt := s.rng.Intn(16)
-		if over[dir] > 0 {
-			endAt = s.rng.Intn(over[dir])
+		if x := s.rng.Intn(4); over[dir] > 0 && x != 0 {
+			endAt = 0
 		}
 		s.res.Params["end_stream_at_queue_position_"+DirName(dir)] = endAt
 		for j := 0; j < 16+over[dir]; j++ {
@@ -1313,6 +1318,14 @@ func (s *session) armDelay(dir int, blocked [2]string) bool {
 		switch s.rng.Intn(3) {
 		case 0:
 			kind = "window-update"
+		}
+		if s.cell.State == "chan-full" {
+			// a fixed half of the chan-full cells: the delayed direction holds a WINDOW_UPDATE, i.e.
+			// a frame that needs the peer's flow-control lock once released
+			kind = "ping"
+			if cellNo, rep := s.cell.Idx%128, s.cell.Idx/128; (cellNo/4+rep)%2 == 0 {
+				kind = "window-update"
+			}
 		}
 	}
 	if Unobservable(s.cell) {
